@@ -532,8 +532,29 @@ func (s *Store) UpdateLease(lease *Lease) error {
 	s.mu.Lock()
 	defer s.mu.Unlock()
 
-	if _, exists := s.leases[lease.ID]; !exists {
+	existing, exists := s.leases[lease.ID]
+	if !exists {
 		return fmt.Errorf("lease not found: %s", lease.ID)
+	}
+
+	// Update indexes if an address or the MAC changed
+	if existing.IPv4 != nil && (lease.IPv4 == nil || !existing.IPv4.Equal(lease.IPv4)) {
+		delete(s.leaseByIP, existing.IPv4.String())
+	}
+	if lease.IPv4 != nil {
+		s.leaseByIP[lease.IPv4.String()] = lease.ID
+	}
+	if existing.IPv6 != nil && (lease.IPv6 == nil || !existing.IPv6.Equal(lease.IPv6)) {
+		delete(s.leaseByIP, existing.IPv6.String())
+	}
+	if lease.IPv6 != nil {
+		s.leaseByIP[lease.IPv6.String()] = lease.ID
+	}
+	if existing.MAC != nil && (lease.MAC == nil || existing.MAC.String() != lease.MAC.String()) {
+		delete(s.leaseByMAC, existing.MAC.String())
+	}
+	if lease.MAC != nil {
+		s.leaseByMAC[lease.MAC.String()] = lease.ID
 	}
 
 	lease.UpdatedAt = time.Now()
